@@ -1,3 +1,376 @@
+/-
+C02 — calibrated noise laws satisfy the (ε, δ) inequality.
+
+The calibration functions are the executable model `DPL/Model/Calibration.lean` (run on IEEE doubles against the Python
+code by `Drivers/Continuous.lean` on every check); here the same definitions are instantiated at ℝ.
+
+Proved in full:   Laplace with optional δ (also truncated / folded, by post-processing), uniform, staircase (density
+                  ratio, every γ, and the sampler's mixture weights), the snapping identity, the objective identities of
+                  the analytic and the discrete Gaussian, the bracket invariants of all three root finders (★ = for an
+                  arbitrary carrier, hence for doubles), "the discrete-Gaussian root finder returns a point whose objective is ≤ 0".
+Partial (`…_partial`, full statement kept as `def …_full : Prop`):
+                  bounded-noise Laplace (tail mass and ratio; the integral of the density is evaluated symbolically),
+                  bounded-domain Laplace (normaliser ratio bound = Holohan et al. Lemma 3.4 is a hypothesis),
+                  Gaussian family (Balle–Wang Thm 8 / Canonne–Kamath–Steinke Thm 7 turn "objective ≤ 0" into (ε, δ)-DP:
+                  cited hypotheses, never axioms).
+Not provable even in exact arithmetic: that a bracket MIDPOINT (bounded-domain, analytic Gaussian) lies on the private
+side of the root — it is within half a (tiny) bracket of it; checked numerically on every run.
+-/
 import DPL.Model.Calibration
+import DPL.Proofs.RealCarrier
+import DPL.Proofs.ContinuousCalib
+import DPL.Proofs.ContinuousRoots
+import DPL.Proofs.ContinuousIntegrals
+import DPL.Proofs.ContinuousDP
+import DPL.Proofs.ContinuousObjective
+
 namespace DPL.C02
+open DPL DPL.Cont MeasureTheory
+
+/-! ## Laplace (optional δ), truncated, folded -/
+
+/-- pointwise: two Laplace densities with the same scale and centres at most `Δ` apart differ by at most `e^{Δ/b}` -/
+theorem laplace_density_ratio (b x x' y Δ : ℝ) (hb : 0 < b) (hx : |x - x'| ≤ Δ) :
+    lapDensity b x y ≤ Real.exp (Δ / b) * lapDensity b x' y := by
+  unfold lapDensity
+  have := laplace_ratio b x x' y Δ hb hx
+  rw [← mul_div_assoc]
+  exact div_le_div_of_nonneg_right this (by positivity)
+
+/-- with the coded scale `sens / (ε - log(1-δ))` the worst-case ratio is exactly `e^ε / (1-δ)` -/
+theorem laplace_scale_ratio (eps delta sens : ℝ) (hs : 0 < sens) (hd : delta < 1)
+    (hpos : 0 < eps - Real.log (1 - delta)) :
+    Real.exp (sens / laplaceScale eps delta sens) = Real.exp eps / (1 - delta) :=
+  exp_sens_div_laplaceScale eps delta sens hs hd hpos
+
+/-- `P ≤ e^ε/(1-δ) · P'` and `P ≤ 1` give `P ≤ e^ε P' + δ` -/
+theorem approx_of_scaled (P P' e d : ℝ) (hP1 : P ≤ 1) (hP' : 0 ≤ P') (he : 0 < e) (hd0 : 0 ≤ d) (hd1 : d < 1)
+    (h : P ≤ e / (1 - d) * P') : P ≤ e * P' + d :=
+  Cont.approx_of_scaled P P' e d hP1 hP' he hd0 hd1 h
+
+/-- the Laplace law is normalised (so that `P ≤ 1` above is not an assumption) -/
+theorem laplace_normalised (b x : ℝ) (hb : 0 < b) : lapMeasure b x Set.univ = 1 := lapMeasure_univ b x hb
+
+/-- **Laplace mechanism, (ε, δ)-DP**: with the coded scale, for all inputs at most `sens` apart and every measurable
+output set -/
+theorem laplace_dp (eps delta sens x x' : ℝ) (hs : 0 < sens) (hd0 : 0 ≤ delta) (hd1 : delta < 1)
+    (hpos : 0 < eps - Real.log (1 - delta)) (hx : |x - x'| ≤ sens) (S : Set ℝ) (hS : MeasurableSet S) :
+    lapMeasure (laplaceScale eps delta sens) x S ≤
+      ENNReal.ofReal (Real.exp eps) * lapMeasure (laplaceScale eps delta sens) x' S + ENNReal.ofReal delta := by
+  have hb : 0 < laplaceScale eps delta sens := by rw [laplaceScale_real]; positivity
+  apply approx_of_scaled_ennreal _ _ _ _ (lapMeasure_le_one _ _ hb S) hd0 hd1
+  rw [← exp_sens_div_laplaceScale eps delta sens hs hd1 hpos]
+  exact lapMeasure_ratio _ x x' sens hb hx S hS
+
+/-- non-vacuity of the hypotheses of `laplace_dp` (ε = 1, δ = 1/2, sens = 1) -/
+example : (0:ℝ) < 1 ∧ (0:ℝ) ≤ 1/2 ∧ (1/2:ℝ) < 1 ∧ 0 < (1:ℝ) - Real.log (1 - 1/2) ∧ |(0:ℝ) - 1| ≤ 1 := by
+  refine ⟨by norm_num, by norm_num, by norm_num, ?_, by norm_num⟩
+  have : Real.log (1 - 1/2) < 0 := Real.log_neg (by norm_num) (by norm_num)
+  linarith
+
+/-- post-processing: any measurable map of the output (in particular truncation and folding) keeps the guarantee -/
+theorem laplace_postprocess_dp (eps delta sens x x' : ℝ) (hs : 0 < sens) (hd0 : 0 ≤ delta) (hd1 : delta < 1)
+    (hpos : 0 < eps - Real.log (1 - delta)) (hx : |x - x'| ≤ sens) (g : ℝ → ℝ) (hg : Measurable g)
+    (T : Set ℝ) (hT : MeasurableSet T) :
+    ((lapMeasure (laplaceScale eps delta sens) x).map g) T ≤
+      ENNReal.ofReal (Real.exp eps) * ((lapMeasure (laplaceScale eps delta sens) x').map g) T + ENNReal.ofReal delta :=
+  dp_postprocess _ _ (fun S hS => laplace_dp eps delta sens x x' hs hd0 hd1 hpos hx S hS) g hg T hT
+
+/-- **truncated Laplace** (`LaplaceTruncated`): the clamp to `[lo, hi]` is such a map -/
+theorem laplace_truncated_dp (eps delta sens x x' lo hi : ℝ) (hs : 0 < sens) (hd0 : 0 ≤ delta) (hd1 : delta < 1)
+    (hpos : 0 < eps - Real.log (1 - delta)) (hx : |x - x'| ≤ sens) (T : Set ℝ) (hT : MeasurableSet T) :
+    ((lapMeasure (laplaceScale eps delta sens) x).map (fun y => max lo (min y hi))) T ≤
+      ENNReal.ofReal (Real.exp eps) * ((lapMeasure (laplaceScale eps delta sens) x').map (fun y => max lo (min y hi))) T
+        + ENNReal.ofReal delta :=
+  laplace_postprocess_dp eps delta sens x x' hs hd0 hd1 hpos hx _ (measurable_truncate lo hi) T hT
+
+/-! ## uniform (ε = 0) -/
+
+/-- **uniform mechanism, (0, δ)-DP**: with the coded half width `sens/δ/2`, a shift `0 ≤ t ≤ sens` moves mass at most
+`δ`, in both directions, for every measurable output set -/
+theorem uniform_dp (delta sens x t : ℝ) (hd : 0 < delta) (hs : 0 < sens) (ht0 : 0 ≤ t) (ht : t ≤ sens)
+    (S : Set ℝ) (hS : MeasurableSet S) :
+    unifMeasure (uniformHalfWidth delta sens) x S ≤
+        unifMeasure (uniformHalfWidth delta sens) (x + t) S + ENNReal.ofReal delta ∧
+    unifMeasure (uniformHalfWidth delta sens) (x + t) S ≤
+        unifMeasure (uniformHalfWidth delta sens) x S + ENNReal.ofReal delta := by
+  have hw : 0 < uniformHalfWidth delta sens := by rw [uniformHalfWidth_real]; positivity
+  have hle : t / (2 * uniformHalfWidth delta sens) ≤ delta := by
+    rw [uniformHalfWidth_real, div_le_iff₀ (by positivity)]
+    have : delta * (2 * (sens / delta / 2)) = sens := by field_simp
+    rw [this]; exact ht
+  obtain ⟨h1, h2⟩ := unifMeasure_shift _ x t hw ht0 S hS
+  have hmono := ENNReal.ofReal_le_ofReal hle
+  exact ⟨h1.trans (add_le_add le_rfl hmono), h2.trans (add_le_add le_rfl hmono)⟩
+
+/-! ## staircase -/
+
+/-- pointwise density ratio `≤ e^ε` under shifts `≤ sens` (floor arithmetic), for every `γ` -/
+theorem staircase_density_ratio (a eps gamma sens x x' y : ℝ) (ha : 0 ≤ a) (he : 0 ≤ eps) (hs : 0 < sens)
+    (hx : |x - x'| ≤ sens) :
+    stairDensity a eps gamma sens x y ≤ Real.exp eps * stairDensity a eps gamma sens x' y :=
+  stairDensity_ratio a eps gamma sens x x' y ha he hs hx
+
+/-- **staircase mechanism, ε-DP** on every output set (for any base measure), every `γ` -/
+theorem staircase_dp {μ : Measure ℝ} (a eps gamma sens x x' : ℝ) (ha : 0 ≤ a) (he : 0 ≤ eps) (hs : 0 < sens)
+    (hx : |x - x'| ≤ sens) (S : Set ℝ) :
+    ∫⁻ y in S, ENNReal.ofReal (stairDensity a eps gamma sens x y) ∂μ ≤
+      ENNReal.ofReal (Real.exp eps) * ∫⁻ y in S, ENNReal.ofReal (stairDensity a eps gamma sens x' y) ∂μ := by
+  apply set_bound_of_pointwise _ _ _ ENNReal.ofReal_ne_top
+  intro y
+  rw [← ENNReal.ofReal_mul (Real.exp_pos _).le]
+  exact ENNReal.ofReal_le_ofReal (stairDensity_ratio a eps gamma sens x x' y ha he hs hx)
+
+/-- the sampler's parameters realise that density: the geometric draw has ratio `e^{-ε}`, and the binary threshold
+`q₀ = γ/(γ + (1-γ)e^{-ε})` makes the second sub-step `e^{-ε}` times as high as the first
+(`(1-q₀)/(1-γ) = e^{-ε} · q₀/γ`), which is also the height of the first sub-step of the next level -/
+theorem staircase_sampler_params (eps gamma : ℝ) (hg0 : 0 < gamma) (hg1 : gamma < 1) :
+    1 - staircaseGeomP eps = Real.exp (-eps) ∧
+    (1 - staircaseBinThresh eps gamma) / (1 - gamma) = Real.exp (-eps) * (staircaseBinThresh eps gamma / gamma) := by
+  unfold staircaseGeomP staircaseBinThresh
+  simp only [transc_exp]
+  have hE : 0 < Real.exp (-eps) := Real.exp_pos _
+  have hden : 0 < gamma + (1 - gamma) * Real.exp (-eps) := by
+    have : 0 < (1 - gamma) * Real.exp (-eps) := mul_pos (by linarith) hE
+    linarith
+  refine ⟨by ring, ?_⟩
+  have h1 : 1 - gamma ≠ 0 := by linarith
+  field_simp
+  ring
+
+/-! ## snapping -/
+
+/-- **snapping**: the internal epsilon `ε' = (ε - 2η)/(1 + 12Bη)` satisfies `ε'(1 + 12Bη) + 2η = ε` and
+`0 < ε' ≤ ε`; Mironov's Theorem 1 (the mechanism run with `ε'` on `[-B, B]` is `(ε'(1+12Bη) + 2η)`-DP) is the cited
+hypothesis that turns this into ε-DP -/
+theorem snapping_eff_eps (eta eps B : ℝ) (hB : 0 ≤ B) (heta : 0 ≤ eta) (he : 2 * eta < eps) :
+    snapEffEps eta eps B * (1 + 12 * B * eta) + 2 * eta = eps ∧
+    0 < snapEffEps eta eps B ∧ snapEffEps eta eps B ≤ eps :=
+  ⟨snap_identity eta eps B hB heta, snap_pos eta eps B hB heta he, snap_le eta eps B hB heta he⟩
+
+/-- end to end, with Mironov's theorem as an explicit hypothesis about an abstract guarantee `isDP internalEps B ε` -/
+theorem snapping_dp_of_mironov (isDP : ℝ → ℝ → ℝ → Prop) (eta : ℝ) (heta : 0 ≤ eta)
+    (mironov : ∀ e' B, 0 < e' → 0 ≤ B → isDP e' B (e' * (1 + 12 * B * eta) + 2 * eta))
+    (eps B : ℝ) (hB : 0 ≤ B) (he : 2 * eta < eps) : isDP (snapEffEps eta eps B) B eps := by
+  have h := mironov (snapEffEps eta eps B) B (snap_pos eta eps B hB heta he) hB
+  rwa [snap_identity eta eps B hB heta] at h
+
+example : (0:ℝ) ≤ 500 ∧ (0:ℝ) ≤ 2⁻¹ ^ 53 ∧ 2 * (2⁻¹ ^ 53 : ℝ) < 1 := by norm_num
+
+/-! ## bounded-noise Laplace (Geng et al.) -/
+
+/-- the full statement (not proved: needs the integral of the truncated density over the non-overlap region) -/
+def bounded_noise_dp_full : Prop :=
+  ∀ (eps delta sens x x' : ℝ), 0 < eps → 0 < delta → delta < 1/2 → 0 < sens → |x - x'| ≤ sens →
+    ∀ S : Set ℝ, MeasurableSet S →
+      let b := sens / eps
+      let A := boundedNoiseBound eps delta sens
+      let law := fun c : ℝ => (ENNReal.ofReal (1 / (1 - Real.exp (-A / b)))) •
+        ((lapMeasure b c).restrict (Set.Icc (c - A) (c + A)))
+      law x S ≤ ENNReal.ofReal (Real.exp eps) * law x' S + ENNReal.ofReal delta
+
+/-- **bounded-noise Laplace, partial**: with scale `b = sens/ε` and the coded bound `A`,
+(i) where both truncated densities are positive their ratio is at most `e^ε` (same normaliser),
+(ii) `e^{-A/b} = 2δ/(2δ + e^ε - 1)`, and
+(iii) the mass within `sens` of an end of the support — `e^{-A/b}(e^{sens/b} - 1) / (2(1 - e^{-A/b}))` once the
+integral of `e^{-|z|/b}/(2b(1 - e^{-A/b}))` over `[A - sens, A]` is evaluated — is exactly `δ`. -/
+theorem bounded_noise_dp_partial (eps delta sens : ℝ) (he : 0 < eps) (hd : 0 < delta) (hs : 0 < sens) :
+    (∀ x x' y : ℝ, |x - x'| ≤ sens →
+        lapDensity (sens / eps) x y ≤ Real.exp eps * lapDensity (sens / eps) x' y) ∧
+    Real.exp (-(boundedNoiseBound eps delta sens) / (sens / eps)) = 2 * delta / (2 * delta + Real.exp eps - 1) ∧
+    (let b := sens / eps
+     let q := Real.exp (-(boundedNoiseBound eps delta sens) / b)
+     q * (Real.exp (sens / b) - 1) / (2 * (1 - q)) = delta) := by
+  refine ⟨?_, exp_neg_bound_div_scale eps delta sens he hd hs, bounded_noise_tail_mass eps delta sens he hd hs⟩
+  intro x x' y hx
+  have hb : 0 < sens / eps := by positivity
+  have h := laplace_density_ratio (sens / eps) x x' y sens hb hx
+  have : sens / (sens / eps) = eps := by field_simp
+  rwa [this] at h
+
+/-! ## bounded-domain Laplace (Holohan et al.) -/
+
+/-- the full statement: the scale the root finder returns is private (not provable: the returned midpoint lies within
+half a bracket of the fixed point, on either side) -/
+def bounded_domain_dp_full : Prop :=
+  ∀ (eps delta sens lo hi x x' y : ℝ), 0 < eps → 0 ≤ delta → delta < 1 → 0 < sens → lo < hi →
+    lo ≤ x → x ≤ hi → lo ≤ x' → x' ≤ hi → |x - x'| ≤ sens → lo ≤ y → y ≤ hi →
+    let b := (bdScale eps delta sens (hi - lo)).1
+    let C := fun c : ℝ => 1 - (Real.exp (-(c - lo) / b) + Real.exp (-(hi - c) / b)) / 2
+    Real.exp (-|y - x| / b) / (2 * b * C x) ≤
+      Real.exp eps / (1 - delta) * (Real.exp (-|y - x'| / b) / (2 * b * C x'))
+
+/-- **bounded-domain Laplace, partial**: IF the scale `b` is at least the fixed-point expression
+`sens / (ε - log ΔC - log(1-δ))` for a `ΔC` that bounds the ratio of the normalisers (Holohan et al. Lemma 3.4:
+`ΔC(b)` of the code does), THEN the density ratio is at most `e^ε/(1-δ)` — which `approx_of_scaled` turns into
+(ε, δ)-DP -/
+theorem bounded_domain_dp_partial (eps delta sens b dC cx cx' x x' y : ℝ) (hb : 0 < b) (hd : delta < 1)
+    (hdC : 0 < dC) (hcx : 0 < cx) (hcx' : 0 < cx')
+    (hden : 0 < eps - Real.log dC - Real.log (1 - delta))
+    (hfix : sens / (eps - Real.log dC - Real.log (1 - delta)) ≤ b)
+    (hnorm : cx' / cx ≤ dC) (hx : |x - x'| ≤ sens) :
+    Real.exp (-|y - x| / b) / (2 * b * cx) ≤
+      Real.exp eps / (1 - delta) * (Real.exp (-|y - x'| / b) / (2 * b * cx')) :=
+  bounded_domain_ratio eps delta sens b dC cx cx' x x' y hb hd hdC hcx hcx' hden hfix hnorm hx
+
+example : (0:ℝ) < 1 ∧ (0:ℝ) < 1 - Real.log 1 - Real.log (1 - 0) ∧ (1:ℝ) / (1 - Real.log 1 - Real.log (1 - 0)) ≤ 1 := by
+  simp
+
+section generic
+variable {α : Type} [OfNat α 0] [OfNat α 1] [OfNat α 2] [Add α] [Sub α] [Mul α] [Div α] [Neg α]
+  [LT α] [LE α] [DecidableLT α] [DecidableLE α] [NatCast α] [Transc α]
+
+/-- ★ **bisect_bracket** (any carrier, any `f`, any fuel): the loop of `LaplaceBoundedDomain._find_scale` keeps
+`f(left) ≥ left ∧ f(right) ≤ right` -/
+theorem bisect_bracket (f : α → α) (fuel : Nat) (b : Bracket α) (h : BdInv f b) :
+    BdInv f (bisectLoop f fuel b).1 :=
+  bisectLoop_inv f fuel b h
+
+/-- ★ the same for the model's `bdScale` as a whole: if the initial bracket `[left, f(left)]` has
+`f(f(left)) ≤ f(left)` and `left ≤ f(left)` (what the code silently assumes), the final bracket still satisfies it -/
+theorem bdScale_bracket (eps delta sens diam : α) (fuel : Nat) :
+    let dq := pyMin2 sens diam
+    let f := bdF eps delta dq diam
+    let left := dq / (eps - Transc.log (1 - delta))
+    BdInv f ⟨left, f left, (f left - left) * 2⟩ →
+      BdInv f (bisectLoop f fuel ⟨left, f left, (f left - left) * 2⟩).1 := by
+  intro dq f left h
+  exact bisectLoop_inv f fuel _ h
+
+/-- ★ analytic Gaussian: the binary search keeps a sign change of the objective across the bracket -/
+theorem analytic_gauss_bisect_bracket (f : α → α) (fuel : Nat) (b : Bracket α) (h : AgInv f b) :
+    AgInv f (agLoop f fuel b).1 :=
+  agLoop_inv f fuel b h
+
+/-- ★ analytic Gaussian: when the doubling loop ends before its fuel, the objective's product at the ends is not
+positive (so the binary search starts from a sign change) -/
+theorem analytic_gauss_doubling_exit (f : α → α) (fuel : Nat) (l r : α) :
+    (agDouble f fuel l r).2.2 < fuel → ¬ 0 < f (agDouble f fuel l r).1 * f (agDouble f fuel l r).2.1 :=
+  agDouble_exit f fuel l r
+
+/-- ★ discrete Gaussian: the bisection keeps "stored values = objective at the ends, product not positive" -/
+theorem discrete_gauss_bisect_bracket (obj : α → Option α) (rtol atol : α) (fuel : Nat) (b r : DgBracket α) (n : Nat)
+    (h : DgInv obj b) (hr : dgBisect obj rtol atol fuel b = some (r, n)) : DgInv obj r :=
+  dgBisect_inv obj rtol atol fuel b r n h hr
+
+/-- ★ discrete Gaussian: the expansion loop keeps the stored values in step with the bracket and ends on a
+non-positive product -/
+theorem discrete_gauss_expand_bracket (obj : α → Option α) (step : α) (fuel : Nat) (b r : DgBracket α) (n : Nat)
+    (h : DgTrack obj step b) (hr : dgExpand obj step fuel b = some (r, n)) :
+    DgTrack obj step r ∧ ¬ 0 < r.f0 * r.f1 :=
+  dgExpand_inv obj step fuel b r n h hr
+
+end generic
+
+/-- over ℝ: the bounded-domain bracket stays ordered and its width after `n` iterations is at most `initial / 2^n`;
+the returned midpoint lies in it -/
+theorem bisect_bracket_width (f : ℝ → ℝ) (fuel : Nat) (b : Bracket ℝ) (h : b.left ≤ b.right) :
+    let r := bisectLoop f fuel b
+    r.1.left ≤ (r.1.right + r.1.left) / 2 ∧ (r.1.right + r.1.left) / 2 ≤ r.1.right ∧
+    r.1.right - r.1.left ≤ (b.right - b.left) / 2 ^ r.2 := by
+  intro r
+  obtain ⟨h1, h2⟩ := bisectLoop_width f fuel b h
+  obtain ⟨m1, m2⟩ := mid_mem _ _ h1
+  exact ⟨m1, m2, h2⟩
+
+/-- over ℝ: with a sign change across the bracket the analytic-Gaussian binary search halves it at every step -/
+theorem analytic_gauss_step_width (f : ℝ → ℝ) (b : Bracket ℝ) (h : b.left ≤ b.right) (hs : f b.left * f b.right ≤ 0) :
+    (agStep f b).left ≤ (agStep f b).right ∧ (agStep f b).right - (agStep f b).left ≤ (b.right - b.left) / 2 :=
+  agStep_width f b h hs
+
+/-! ## Gaussian family -/
+
+section gauss
+variable [HasErf ℝ]
+
+/-- **analytic_gauss_objective** (pure algebra, any `erf`): at `v = (left+right)/2` the coded `b_plus` (branch
+`delta_0 < 0`, `α = √(1+v/2) - √(v/2)`) and `b_minus` (other branch, `α = √(1+v/2) + √(v/2)`) are the Balle–Wang
+expression `Φ(Δ/2σ - εσ/Δ) - e^ε Φ(-Δ/2σ - εσ/Δ) - δ` at the very `σ = α Δ/√(2ε)` the code returns -/
+theorem analytic_gauss_objective (eps delta sens l r : ℝ) (he : 0 < eps) (hs : 0 < sens) (hv : 0 ≤ l + r) :
+    bPlus eps delta ((l + r) / 2) = balleWang eps delta sens (agSigma true eps sens l r) ∧
+    bMinus eps delta ((l + r) / 2) = balleWang eps delta sens (agSigma false eps sens l r) :=
+  ⟨bPlus_eq_balleWang eps delta sens l r he hs hv, bMinus_eq_balleWang eps delta sens l r he hs hv⟩
+
+/-- the model's `analyticGaussScale` returns exactly `agSigma` of its final bracket, in the branch it chose -/
+theorem analytic_gauss_scale_eq (eps delta sens : ℝ) (h : sens / eps ≠ 0) :
+    (analyticGaussScale eps delta sens).scale =
+      agSigma (analyticGaussScale eps delta sens).usedPlus eps sens
+        (analyticGaussScale eps delta sens).left (analyticGaussScale eps delta sens).right := by
+  unfold analyticGaussScale agSigma
+  simp only [feq_real, h, decide_false, Bool.false_eq_true, if_false, transc_sqrt]
+
+/-- the full statement for the analytic Gaussian: not proved — needs Balle–Wang Thm 8 (a cited fact about the normal
+cdf) AND the side of the root on which the midpoint falls (decided numerically on every run) -/
+def analytic_gauss_dp_full : Prop :=
+  ∀ (eps delta sens : ℝ), 0 < eps → 0 < delta → delta < 1 → 0 < sens →
+    balleWang eps delta sens (analyticGaussScale eps delta sens).scale ≤ 0
+
+/-- the full statement for the classical Gaussian mechanism (ε ≤ 1): not proved (Mills-ratio bound on the normal tail) -/
+def gauss_classical_dp_full : Prop :=
+  ∀ (eps delta sens : ℝ), 0 < eps → eps ≤ 1 → 0 < delta → delta < 1 → 0 < sens →
+    balleWang eps delta sens (gaussSigma eps delta sens) ≤ 0
+
+end gauss
+
+/-- **discrete Gaussian objective** = partial sums of the discrete hockey-stick expression: after `n` passes,
+`lhs = Σ_{|k| ≤ n, k > idx₀} w_k`, `rhs = Σ_{1 ≤ k ≤ n, k > idx₁} w_k`, `denom = Σ_{|k| ≤ n} w_k` with
+`w_k = e^{-k²/2σ²}` (written over `k = 1..n` with the mirrored and the `k = 0` term explicit), so that
+`(lhs - e^ε rhs)/denom - δ → P[X > idx₀] - e^ε P[X > idx₁] - δ`, the expression of Canonne–Kamath–Steinke Thm 7 -/
+theorem discrete_gauss_objective_sums (sigma : ℝ) (idx0 idx1 : ℤ) (n : ℕ) :
+    (dgIter sigma idx0 idx1 n).lhs =
+      (if idx0 < 0 then 1 else 0) +
+        ∑ i ∈ Finset.range n, ((if idx0 < ((i + 1 : ℕ) : ℤ) then dgTerm sigma (i + 1) else 0) +
+          (if idx0 < ((i + 1 : ℕ) : ℤ) ∧ idx0 < -((i + 1 : ℕ) : ℤ) then dgTerm sigma (i + 1) else 0)) ∧
+    (dgIter sigma idx0 idx1 n).rhs =
+      ∑ i ∈ Finset.range n,
+        (if idx0 < ((i + 1 : ℕ) : ℤ) ∧ idx1 < ((i + 1 : ℕ) : ℤ) then dgTerm sigma (i + 1) else 0) ∧
+    (dgIter sigma idx0 idx1 n).denom = 1 + 2 * ∑ i ∈ Finset.range n, dgTerm sigma (i + 1) :=
+  dgIter_sums sigma idx0 idx1 n
+
+/-- the value `objective` returns is built from one of those iterates -/
+theorem discrete_gauss_objective_is_iterate (eps delta : ℝ) (sens : ℕ) (sigma : ℝ) (cap : ℕ) (v : ℝ) (s : DgState ℝ)
+    (h : dgObjective eps delta sens sigma cap = some (v, s)) :
+    (∃ n, s = dgIter sigma (dgIdx0 sigma eps sens) (dgIdx1 sigma eps sens) n) ∧
+    v = (s.lhs - Real.exp eps * s.rhs) / s.denom - delta := by
+  unfold dgObjective at h
+  dsimp only at h
+  split at h
+  · cases h
+  · rename_i s' hs'
+    simp only [Option.some.injEq, Prod.mk.injEq] at h
+    obtain ⟨hv, hss⟩ := h
+    subst hss
+    exact ⟨dgLoop_iter sigma _ _ cap (cap + 1) 0 s' hs', hv.symm⟩
+
+/-- **the discrete-Gaussian root finder never settles on the non-private side**: over ℝ, whenever
+`discreteGaussScale` returns a non-degenerate scale, the objective at that scale is `≤ 0`
+(Canonne–Kamath–Steinke Thm 7 — cited — says that this is (ε, δ)-DP for the summed-to-infinity objective). -/
+theorem discrete_gauss_private_side (eps delta : ℝ) (sens : ℕ) (half rtol atol : ℝ) (cap fuel : ℕ)
+    (r : DgResult ℝ) (hne : (sens : ℝ) / eps ≠ 0)
+    (h : discreteGaussScale eps delta sens half rtol atol cap fuel = some r) :
+    ∃ v, (dgObjective eps delta sens r.scale cap).map (·.1) = some v ∧ v ≤ 0 := by
+  unfold discreteGaussScale at h
+  simp only [feq_real, hne, decide_false, Bool.false_eq_true, if_false] at h
+  split at h
+  · cases h
+  · rename_i f0 hf0
+    split at h
+    · cases h
+    · rename_i f1 hf1
+      split at h
+      · cases h
+      · rename_i b ne hexp
+        split at h
+        · cases h
+        · rename_i rb nb hbis
+          cases h
+          have htrack : DgTrack (fun s => (dgObjective eps delta sens s cap).map (·.1))
+              (if 0 < f0 then 2 else half) ⟨1, if 0 < f0 then 2 else half, f0, f1⟩ :=
+            ⟨hf0, hf1, one_mul _⟩
+          obtain ⟨⟨t0, t1, _⟩, hprod⟩ := dgExpand_inv _ _ fuel _ b ne htrack hexp
+          have hinv : DgInv (fun s => (dgObjective eps delta sens s cap).map (·.1)) b :=
+            ⟨t0, t1, Or.inr (not_lt.mp hprod)⟩
+          have hfin := dgBisect_inv _ rtol atol fuel b rb nb hinv hbis
+          exact dgPick_nonpos _ rb hfin
+
 end DPL.C02
